@@ -31,7 +31,7 @@ ASSUMPTIONS = [
 
 def box(tier):
     if tier == "quick":
-        return dict(n=range(3, 41), past=range(1, 7), delay2=range(2, 6), ncol=range(0, 4),
+        return dict(n=range(3, 41), past=list(range(1, 7)) + [9, 12], delay2=range(2, 6), ncol=range(0, 4),
                     dtypes=["float64"])
     return dict(n=range(3, 121), past=range(1, 11), delay2=range(2, 9), ncol=range(0, 5),
                 dtypes=["float64", "float32"])
